@@ -27,8 +27,9 @@ CC = 'propka.conformation_container.ConformationContainer'
 
 def mkdet(repo, name, group=None, label=None):
     Dt = repo.cls('propka.determinant.Determinant')
-    return record(name, Dt, group=group, label=label if label is not None else (group.attrs['label'] if group else name),
-                  value=R(name + '_value'))
+    fields = dict(init_defaults(Dt))       # whatever else a freshly constructed Determinant carries (literal fields of its __init__)
+    fields.update(group=group, label=label if label is not None else (group.attrs['label'] if group else name), value=R(name + '_value'))
+    return record(name, Dt, **fields)
 
 
 def mkgroup(repo, name, nd=(1, 1, 1), label=None, bridge=False, **kw):
